@@ -446,7 +446,7 @@ def directed_histories(ck):
                 if not hasattr(p, opname):
                     continue
                 if first == 'all queries':
-                    snapshot(p, order, True)
+                    snapshot(p, order, False)
                 elif first == 'length only':
                     p.length()
                 try:
@@ -456,7 +456,7 @@ def directed_histories(ck):
                     continue
                 ck.case(fp=('directed', opname, order, first), nontrivial=True)
                 fresh = sp.Path(*[type(s_)(*s_.bpoints()) if not isinstance(s_, sp.Arc) else sp.Arc(s_.start, s_.radius, s_.rotation, s_.large_arc, s_.sweep, s_.end) for s_ in p])
-                b_, a_ = snapshot(fresh, order, True), snapshot(p, order, True)
+                b_, a_ = snapshot(fresh, order, True), snapshot(p, order, False)
                 bad_ = [k_ for k_ in a_ if not close(a_[k_], b_[k_])]
                 if bad_:
                     ck.disagree(key='Path.%s/stale-answers-afterwards' % opname, site='svgpathtools/path.py:Path.' + opname, what='%s; %s(); then %s differ from a freshly built Path of the same segments' % (first, opname, bad_[:5]),
